@@ -56,12 +56,18 @@ def xofOn (X : XAlg) (o : Op) : String :=
   | _, _, _, _ => "bad-op"
 
 /-- `xof alg=b|s len=N key=HEX ops=w5,rd10,sk4096,c,rd3,x,rd4,r,… data=HEX` (`skN` = Read N bytes and discard them) -/
-def handle (line : String) : String :=
+def handle0 (line : String) : String :=
   let o := parseOp line
   if o.cmd != "xof" then "bad-op" else
   match o.get? "alg" with
   | some "b" => xofOn XB o
   | some "s" => xofOn XS o
   | _ => "bad-op"
+
+/-- the harness appends ` mut=…` (caller-memory report of hx.Arena: inputs unmodified, nothing written outside
+    the permitted regions, nothing retained); the model is a pure function of contents, so it answers `mut=-` -/
+def handle (line : String) : String :=
+  let r := handle0 line
+  if r == "bad-op" then r else r ++ " mut=-"
 
 end XC.C06
